@@ -125,6 +125,7 @@ fn main() {
         "c13r" => twin::run(&args, &mut out, "c13r"),
         "c14" => twin::run(&args, &mut out, "c14"),
         "c14r" => twin::run(&args, &mut out, "c14r"),
+        "c14p" => twin::run(&args, &mut out, "c14p"),
         "c15" => c15::run(&args, &mut out),
         "c16" => c16::run(&args, &mut out),
         "c17" => c17::run(&args, &mut out),
